@@ -77,6 +77,8 @@ def random_scenario(rng: random.Random, nsims=(2, 4), nconns=(1, 5), until=(2, 4
         scn["multipair"] = True  # connections between the same entities with the same options are made by ONE connect() call
     if rng.random() < 0.05:
         scn["until"] = 1
+    if rng.random() < 0.1:
+        scn["time_resolution"] = rng.choice([0.5, 2.0, 0.001])  # World(time_resolution=...): passed to init(), no effect on scheduling
     if rng.random() < 0.3:
         # start order (= creation order of the SimRunner objects, which id-hashed sets inside mosaik iterate by)
         order = [x["sid"] for x in sims]
